@@ -14,7 +14,7 @@ func init() {
 	register(&PropDef{
 		ID:          "C10",
 		Level:       "other",
-		Explanation: "Structural necessary conditions of a faithful restart, decided from the source: (1) the writer's, the reader's and the reporter's field tables agree — every job/task field that the API mapper reads or that the runner uses on loaded jobs is saved and restored under the same name through an inverse converter pair (whose bodies are checked: err ↦ &err.Error(), s ↦ errors.New(*s), text unchanged), with usable JSON tags; (2) the store's codec value resolves (through the dependency's own initialiser) to a configuration without float truncation; (3) the load loop's normalisation table over (started, completed, canceled) leaves every job terminal and already-terminal rows unchanged (all 8 rows); (4) every persisted job is inserted once into both indexes, the snapshot appends every job of the id index, and loading never touches the wait list. Decides these shapes, not the JSON round trip of arbitrary values.",
+		Explanation: "Structural necessary conditions of a faithful restart, decided from the source: (1) the writer's, the reader's and the reporter's field tables agree — every job/task field that the API mapper reads or that the runner uses on loaded jobs is saved and restored under the same name through an inverse converter pair (whose bodies are checked: err ↦ &err.Error(), s ↦ errors.New(*s), text unchanged), with usable JSON tags; (2) the store's codec value resolves (through the dependency's own initialiser) to a configuration without float truncation; (3) the load loop's normalisation table over (started, completed, canceled) leaves every job terminal and already-terminal rows unchanged (all 8 rows); (4) every persisted job is inserted once into both indexes, the snapshot appends every job of the id index, and loading never touches the wait list. Decides these shapes, not the JSON round trip of arbitrary values. (5) the slice stored into the restored job's Tasks is the one the loop over the persisted tasks fills with the rebuilt jobTasks.",
 		Trusted:     []string{"jsoniter/encoding-json round trip of values for a non-lossy configuration", "time.Time JSON precision"},
 		NotDecided:  []string{"JSON round trip of arbitrary values (library)", "time precision", "which prefix of history a crash preserves (C09/C11)"},
 		Check:       checkC10,
@@ -62,6 +62,7 @@ func checkC10(w *World, r *Report) {
 		checkSaveMap(w, r, saveTask, "jobTask")
 		checkLoadMap(w, r, loadJob, "PersistedJob", saveJob)
 		checkLoadMap(w, r, loadTask, "PersistedTask", saveTask)
+		checkTasksRestored(w, r, loadJob)
 		if loadTaskDef != nil {
 			checkLoadMap(w, r, loadTaskDef, "PersistedTask", saveTask)
 		}
